@@ -36,6 +36,7 @@ def _(c):
         ("ezsp", {"cls": T.const(t.sl_Status), "status": T.enum(t.EzspStatus)}),
     )
     # total: no raises clause is declared, so any exception on any path is a failed obligation
+    c.returns(T.enum(t.sl_Status))
     c.ensures("post.is_unified", lambda result: type(result) is t.sl_Status)
     c.ensures(
         "post.unified_unchanged",
